@@ -791,6 +791,8 @@ class Interp:
             return sorted(it, key=_set_order)
         if hasattr(it, "snapshot") and hasattr(it, "after"):
             return it.snapshot()
+        if isinstance(it, Obj) and isinstance(it.attrs.get("_modules"), dict):
+            return list(it.attrs["_modules"].values())  # iterating an nn container
         if isinstance(it, range):
             return list(it)
         if isinstance(it, dict):
@@ -1024,25 +1026,36 @@ class Interp:
         return self.mkgamma(c, a, b)
 
     def e_BoolOp(self, n: ast.BoolOp, env: Env, mi: ModInfo) -> Any:
+        """Python semantics: `a or b` / `a and b` return one of the operand *values*;
+        an undecidable operand gives a gated value γ(truth(a) ? ... : ...)."""
         is_and = isinstance(n.op, ast.And)
-        pending: List[Any] = []
-        last: Any = None
-        for v in n.values:
-            val = self.eval(v, env, mi)
+
+        def rec(i: int) -> Any:
+            val = self.eval(n.values[i], env, mi)
+            if i == len(n.values) - 1:
+                return val
             t = self.truth(val, n)
-            last = val
             if t is True:
-                if not is_and:
-                    return val if not pending else _boolcomb(is_and, pending + [True])
-                continue
+                return rec(i + 1) if is_and else val
             if t is False:
-                if is_and:
-                    return val if not pending else False
-                continue
-            pending.append(t)
-        if not pending:
-            return last
-        return _boolcomb(is_and, pending)
+                return val if is_and else rec(i + 1)
+            if isinstance(t, Gamma):
+                raise Unsupported("γ-valued operand of a boolean operator")
+            pol = self.guard_lookup(t)
+            if pol is not None:
+                return (rec(i + 1) if pol else val) if is_and else (val if pol else rec(i + 1))
+            # value of the remaining operands under the guard that decides them
+            rest = self._guarded(t, is_and, lambda: rec(i + 1))
+            if is_and:
+                # a and rest: rest if a is truthy else a.  When both are conditions keep a condition.
+                if _is_cond(val):  # boolean-valued left operand: the whole expression is a condition
+                    return _boolcomb(True, [t, self.truth(rest, n)])
+                return self.mkgamma(t, rest, val)
+            if _is_cond(val):
+                return _boolcomb(False, [t, self.truth(rest, n)])
+            return self.mkgamma(t, val, rest)
+
+        return rec(0)
 
     def e_UnaryOp(self, n: ast.UnaryOp, env: Env, mi: ModInfo) -> Any:
         v = self.eval(n.operand, env, mi)
@@ -1753,7 +1766,25 @@ def _not(c: Any) -> Any:
     return T("not", (c,))
 
 
+def _is_cond(v: Any) -> bool:
+    """Is this value itself a truth condition (result of a comparison / predicate)?"""
+    if isinstance(v, T):
+        return v.op in ("truth", "not", "and", "or", "eq", "ne", "lt", "le", "gt", "ge", "is", "in", "isinstance", "hasattr", "callable")
+    return isinstance(v, sp.Basic) and (getattr(v, "is_Relational", False) or getattr(v, "is_Boolean", False))
+
+
+def _is_cond_or_bool(v: Any) -> bool:
+    return isinstance(v, bool) or _is_cond(v)
+
+
 def _boolcomb(is_and: bool, parts: List[Any]) -> Any:
+    if any(p is (False if is_and else True) for p in parts):
+        return False if is_and else True
+    parts = [p for p in parts if p is not (True if is_and else False)]
+    if not parts:
+        return True if is_and else False
+    if len(parts) == 1:
+        return parts[0]
     if all(isinstance(p, (sp.Basic, bool)) for p in parts):
         return (sp.And if is_and else sp.Or)(*parts)
     return T("and" if is_and else "or", tuple(parts))
